@@ -463,3 +463,23 @@ Definition splice (e : ecfg) (v : vec) (s e0 : bound) (xs : list N) (hint0 hint1
             else sp_collect e tail_len removed (buf1, len1, rest1, true, nn b)
         end
   end.
+
+(* ---------- into_iter and clone ---------- *)
+(* v.into_iter(): the vector is consumed; the caller takes [front] items from the front and then
+   [back] from the back (as many as there are); dropping the IntoIter drops the rest, front to back *)
+Record consumed := mkConsumed { c_taken_front : list N; c_taken_back : list N; c_left : list N }.
+Definition into_iter (v : vec) (front back : nat) : consumed :=
+  let items := contents v in
+  let tf := firstn front items in
+  let rest := skipn front items in
+  let tb := firstn back (rev rest) in                      (* in the order next_back yields them *)
+  mkConsumed tf tb (firstn (length rest - back)%nat rest).
+
+(* v.clone(): with_capacity_in(len), then one clone per element in order; the clones are the fresh
+   identities next, next + 1, ... *)
+Definition fresh_ids (next : N) (n : nat) : list N := map (fun i => next + N.of_nat i) (seq 0 n).
+Definition clone_vec (e : ecfg) (v : vec) (next : N) : outcome vec :=
+  match vwith_capacity e (v_len v) with
+  | Panic k => Panic k
+  | Ret o => extend_iter e o (v_len v) (fresh_ids next (nn (v_len v)))
+  end.
